@@ -661,7 +661,7 @@ func checkFindIdx(c *core.Ctx, r *core.Rule, fn *ssa.Function) {
 // (`A/properties/b`) misses and falls through to real pointer evaluation. A key that is only part of the remainder
 // (the last token, the first token) turns a pointer below a component into a hit on some other component.
 func checkComponentShortcutWholeRemainder(c *core.Ctx, prog *core.Prog) {
-	r := c.NewRule("R16.7", "S1", "the components shortcut looks up the whole remainder of the reference after the section prefix", 2)
+	r := c.NewRule("R16.7", "S1", "the components shortcut looks up the whole remainder of the reference after the section prefix", 1)
 	sp := prog.ByPath[pkgParser]
 	if sp == nil {
 		r.Undecided("load:openapi/parser", "-", "package not loaded")
